@@ -955,31 +955,36 @@ def _distribute_tuple_local(fn: T.Any) -> None:
 
 
 def _tail_bool_returns(fn: T.Any) -> None:
-    """A predicate that ends `if C: return False else: return E` (any of the four constant placements)  ->  `return not C and E`."""
-    for _ in range(4):
-        if not fn.body or not isinstance(fn.body[-1], ast.If):
-            return
-        st = fn.body[-1]
-        if not (len(st.body) == 1 and len(st.orelse) == 1 and isinstance(st.body[0], ast.Return) and isinstance(st.orelse[0], ast.Return)
-                and st.body[0].value is not None and st.orelse[0].value is not None and _query(st.test) and _query(st.body[0].value) and _query(st.orelse[0].value)):
-            return
-        A, B = st.body[0].value, st.orelse[0].value
+    """A predicate that ends `if C: return False else: return E` (any of the four constant placements)  ->  `return not C and E`; chains (`elif`) are folded from
+    the innermost test outwards.  Order and number of evaluations are those of the if-chain, so the operands need not be pure; where the value of the test
+    itself becomes the result it must be a boolean expression."""
+    def fold(st: ast.stmt) -> ast.stmt:
+        if not isinstance(st, ast.If) or len(st.body) != 1 or len(st.orelse) != 1:
+            return st
+        b, o = fold(st.body[0]), fold(st.orelse[0])
+        if not (isinstance(b, ast.Return) and isinstance(o, ast.Return) and b.value is not None and o.value is not None):
+            return st
+        if any(isinstance(n, (ast.Await, ast.Yield, ast.YieldFrom, ast.NamedExpr)) for x in (st.test, b.value, o.value) for n in ast.walk(x)):
+            return st
+        A, B = b.value, o.value
         ca = A.value if isinstance(A, ast.Constant) and isinstance(A.value, bool) else None
         cb = B.value if isinstance(B, ast.Constant) and isinstance(B.value, bool) else None
         neg = ast.UnaryOp(op=ast.Not(), operand=st.test)
-        if ca is True:
+        if ca is True and _is_boolean(st.test):
             e: ast.expr = ast.BoolOp(op=ast.Or(), values=[st.test, B])
-        elif cb is False:
+        elif cb is False and _is_boolean(st.test):
             e = ast.BoolOp(op=ast.And(), values=[st.test, A])
         elif ca is False:
             e = ast.BoolOp(op=ast.And(), values=[neg, B])
         elif cb is True:
             e = ast.BoolOp(op=ast.Or(), values=[neg, A])
         else:
-            return
+            return st
         new = ast.copy_location(ast.Return(value=e), st)
         ast.fix_missing_locations(new)
-        fn.body[-1] = new
+        return new
+    if fn.body and isinstance(fn.body[-1], ast.If):
+        fn.body[-1] = fold(fn.body[-1])
 
 
 def _hoist_common_tail_return(fn: T.Any) -> None:
@@ -1455,6 +1460,18 @@ def _class_constants(tree: ast.Module, known_attrs: set[str] | None) -> None:
                 Sub().generic_visit(m)
 
 
+class _NotCompare(ast.NodeTransformer):
+    """`not (a is None)` -> `a is not None` (identity and membership tests only: their negated operators are exact complements)."""
+    _INV = {ast.Is: ast.IsNot, ast.IsNot: ast.Is, ast.In: ast.NotIn, ast.NotIn: ast.In}
+
+    def visit_UnaryOp(self, n: ast.UnaryOp) -> ast.AST:
+        self.generic_visit(n)
+        c = n.operand
+        if isinstance(n.op, ast.Not) and isinstance(c, ast.Compare) and len(c.ops) == 1 and type(c.ops[0]) in self._INV:
+            return ast.copy_location(ast.Compare(left=c.left, ops=[self._INV[type(c.ops[0])]()], comparators=c.comparators), n)
+        return n
+
+
 def canonicalise(tree: ast.Module, known_globals: set[str] | None = None, known_class_attrs: set[str] | None = None) -> None:
     _module_constants(tree, known_globals)
     _class_constants(tree, known_class_attrs)
@@ -1547,4 +1564,5 @@ def canonicalise(tree: ast.Module, known_globals: set[str] | None = None, known_
         _ifelse_temp_to_expr(fn)
         _collapse_generated_temps(fn)
         _drop_empty_else(fn)
+    _NotCompare().visit(tree)
     ast.fix_missing_locations(tree)
